@@ -73,7 +73,8 @@ impl Ans {
 	}
 }
 
-const MAX_DEPTH: usize = 12;
+/// guard of the reference walks (the generators only build acyclic graphs; the deepest chain explored has 1025 classes)
+const MAX_DEPTH: usize = 4096;
 
 impl World {
 	/// `first_names`: class names (in `from`) that get the first indices, in this order
